@@ -1,5 +1,134 @@
-(* C11 — In-place operations only change the array they are applied to (placeholder for the mutation-history model). *)
-From DA Require Import PyBase.
+(* C11 — "In-place operations only change the array they are applied to."
+
+   Statements only; model in theories/Mutation.v (collections = mutable cells holding an
+   immutable expression + the caches of Array.__dict__; handles = user variables; transcriptions
+   of Array._replace_expr, __setitem__, handle_out (ufunc out=), compute_chunk_sizes,
+   _lowered_expr / _lowered_expr_optimize_graph / _cached_dask_keys, optimize, and of the
+   identity-returning derivations), proofs in theories/MutationFacts.v.
+   The harness (harness/c11.py, model_family) replays generated histories on real collections and
+   compares object identity, the cache attributes present in __dict__ and the pattern of
+   expression names after EVERY op with `trace_ok`, and dask's 1-D slice assignment with
+   `setitem_den`, exactly. *)
+From Coq Require Import List Bool ZArith PArith.
+From DA Require Import PyBase Mutation MutationFacts.
+Import ListNotations.
 Open Scope Z_scope.
-Example C11_placeholder : zsum [1;2;3] = 6. Proof. reflexivity. Qed.
-Print Assumptions C11_placeholder.
+
+(* after ANY history every cache present on ANY object was derived from the object's CURRENT
+   expression (under the optimize-graph flag recorded next to it): _replace_expr drops them all *)
+Theorem C11_cache_coherent :
+  forall (ops : list op) (src : positive) (c : nat) (x : coll),
+  get_coll (run ops (init src)) c = Some x ->
+  (forall e f, c_low x = Some (Mat e f) -> e = c_expr x /\ c_flag x = Some f) /\
+  (forall e, c_keys x = Some e -> e = c_expr x).
+Proof. exact cache_coherent. Qed.
+
+(* one op replaces the expression of its target object and of no other object *)
+Theorem C11_step_frame :
+  forall st o c e,
+  expr_of st c = Some e -> expr_target st o <> Some c -> expr_of (step st o) c = Some e.
+Proof. exact step_frame. Qed.
+
+(* a derivation that builds a new object captures the parent's CURRENT expression; for every later
+   history in which no in-place op is applied to the derived object itself (through any handle),
+   it still points to exactly that expression — whatever is done to the parent or anyone else.
+   Expressions are immutable values, so for every denotation function `den` its value is
+   den (EDer k (parent's expression at derivation time)). *)
+Theorem C11_others_unchanged :
+  forall (V : Type) (den : expr -> V) st h k c x ops,
+  coll_of st h = Some c -> get_coll st c = Some x -> identity_returning k = false ->
+  let d := length (colls st) in
+  let st1 := step st (Derive h k) in
+  coll_of st1 (length (handles st)) = Some d /\
+  (expr_untouched d ops st1 ->
+     expr_of (run ops st1) d = Some (EDer k (c_expr x)) /\
+     option_map den (expr_of (run ops st1) d) = Some (den (EDer k (c_expr x)))).
+Proof.
+  intros V den st h k c x ops Hh Hc Hk d st1.
+  destruct (others_unchanged st h k c x ops Hh Hc Hk) as [A B]. split; [exact A|].
+  intro Hu. specialize (B Hu). fold d st1 in B. split; [exact B|]. rewrite B. reflexivity.
+Qed.
+
+(* the same for any object and any history *)
+Theorem C11_history_frame :
+  forall ops st c e,
+  expr_of st c = Some e -> expr_untouched c ops st -> expr_of (run ops st) c = Some e.
+Proof. exact run_frame. Qed.
+
+(* x[:], x[...], asarray(x), x.astype(x.dtype) return x itself: the new handle IS x and follows it
+   (DESIGN F9: a design decision of the library, stated here so that it is explicit) *)
+Theorem C11_identity_derivations_alias :
+  forall st h k c,
+  coll_of st h = Some c -> identity_returning k = true ->
+  let st1 := step st (Derive h k) in
+  coll_of st1 (length (handles st)) = Some c /\ colls st1 = colls st.
+Proof. exact identity_derivation_aliases. Qed.
+
+(* NumPy 1-D assignment semantics for every basic slice key with non-zero step (negative steps
+   and out-of-range endpoints included; v a scalar or a sequence): length kept, the i-th selected
+   position (PyBase.sel) receives the i-th value, all other positions unchanged.  (NumPy raises
+   unless value_fits v (length (sel k n)); the harness compares `setitem_den` with dask exactly.) *)
+Theorem C11_setitem_1d_den :
+  forall (x : list Z) (k : pslice) (v : value),
+  step_of k <> 0 ->
+  let n := Z.of_nat (length x) in
+  let r := setitem_den x k v in
+  length r = length x /\
+  (forall i, (i < length (sel k n))%nat -> nth (Z.to_nat (nth i (sel k n) 0)) r 0 = value_at v i) /\
+  (forall p, ~ In (Z.of_nat p) (sel k n) -> nth p r 0 = nth p x 0).
+Proof. exact setitem_den_spec. Qed.
+
+(* REFUTED: "the `_optimized` marker implies the caches optimize() installed are still there":
+   _replace_expr pops the three caches but not `_optimized`, so after  y = x.optimize(); y[::2] = 10
+   the marker is stale and y.optimize() returns y itself, un-optimized (values are unaffected:
+   the caches are rebuilt from the new expression, C11_cache_coherent). *)
+Theorem C11_optimized_flag_stale_refuted :
+  exists ops c x, get_coll (run ops (init 1%positive)) c = Some x /\ ~ optimized_flag_ok x /\
+    (* ... and optimize() then hands back that very object *)
+    step (run ops (init 1%positive)) (Optimize 1 None) = new_alias (run ops (init 1%positive)) c.
+Proof.
+  exists [Optimize 0 None; SetItem 1 1%positive 1%positive], 1%nat.
+  eexists. split; [vm_compute; reflexivity|]. split; [|vm_compute; reflexivity].
+  unfold optimized_flag_ok. cbn. intro H. destruct (H eq_refl) as [l [f [E _]]]. discriminate.
+Qed.
+
+(* ---- Examples ---- *)
+Definition ex_ops : list op :=
+  [ Derive 0 DAdd1; Compute 0 true; Keys 0; Derive 0 DSliceAll; SetItem 2 1%positive 3%positive;
+    Compute 1 false; UfuncOut 0 1; Optimize 1 (Some 9%positive) ].
+
+(* handle 2 (= x[:]) is x; the SetItem through it replaced x's expression and dropped x's caches;
+   y = x + 1 still points to EDer DAdd1 (ESrc 1) until out=y replaces it *)
+Example C11_ex_trace :
+  map (map (fun o => fst o)) (trace ex_ops (init 1%positive)) =
+  [ [(0, (false, false, false, false)); (1, (false, false, false, false))];
+    [(0, (true, true, false, false)); (1, (false, false, false, false))];
+    [(0, (true, true, true, false)); (1, (false, false, false, false))];
+    [(0, (true, true, true, false)); (1, (false, false, false, false)); (0, (true, true, true, false))];
+    [(0, (false, false, false, false)); (1, (false, false, false, false)); (0, (false, false, false, false))];
+    [(0, (false, false, false, false)); (1, (true, true, false, false)); (0, (false, false, false, false))];
+    [(0, (false, false, false, false)); (1, (false, false, false, false)); (0, (false, false, false, false))];
+    [(0, (false, false, false, false)); (1, (false, false, false, false)); (0, (false, false, false, false));
+     (3, (true, true, false, true))] ]%nat.
+Proof. vm_compute. reflexivity. Qed.
+
+Example C11_ex_untouched :
+  expr_untouched 1 [SetItem 0 1%positive 1%positive; SetMask 2 3 0; Compute 1 true]
+                 (run [Derive 0 DNeg; Derive 0 DEllipsis] (init 1%positive)) /\
+  expr_of (run [Derive 0 DNeg; Derive 0 DEllipsis; SetItem 0 1%positive 1%positive; SetMask 2 3 0; Compute 1 true]
+               (init 1%positive)) 1 = Some (EDer DNeg (ESrc 1)).
+Proof. split; [cbn; repeat split; discriminate | vm_compute; reflexivity]. Qed.
+
+Example C11_ex_setitem :
+  setitem_den [0; 1; 2; 3; 4; 5; 6] (mkslice (Some 5) (Some (-7)) (Some (-2))) (Seq [100; 101; 102]) =
+    [0; 102; 2; 101; 4; 100; 6] /\
+  setitem_den [0; 1; 2; 3; 4] (mkslice None None (Some 2)) (Scalar 9) = [9; 1; 9; 3; 9].
+Proof. vm_compute. split; reflexivity. Qed.
+
+Print Assumptions C11_cache_coherent.
+Print Assumptions C11_step_frame.
+Print Assumptions C11_others_unchanged.
+Print Assumptions C11_history_frame.
+Print Assumptions C11_identity_derivations_alias.
+Print Assumptions C11_setitem_1d_den.
+Print Assumptions C11_optimized_flag_stale_refuted.
